@@ -18,11 +18,11 @@ def run(ctx):
     ctx.cov["exhaustive"] = True
     # 2. behaviours: all of a tiny instance + seeded simulations (unconstrained feeds, legal feeds)
     behs = behaviours(ctx, SPEC, "MC_ChangeCache", "Beh_ChangeCache.cfg")
-    behs += behaviours(ctx, SPEC, "MC_ChangeCache", "Sim_ChangeCache.cfg", num=15 if q else 150, depth=14)
-    behs += behaviours(ctx, SPEC, "MC_ChangeCache", "Sim_ChangeCache_legal.cfg", num=40 if q else 600, depth=14)
+    rnd = random.Random(ctx.seed)
+    behs += per_prefix(behaviours(ctx, SPEC, "MC_ChangeCache", "Sim_ChangeCache.cfg", num=25 if q else 200, depth=14), rnd, 6)
+    behs += per_prefix(behaviours(ctx, SPEC, "MC_ChangeCache", "Sim_ChangeCache_legal.cfg", num=40 if q else 600, depth=14), rnd, 6)
     nseq = len(behs)
     # 3. concurrent variant: the arrivals of simulated behaviours delivered by 2-4 goroutines (final state + forward order)
-    rnd = random.Random(ctx.seed)
     conc = []
     for b in behs[-(120 if q else 1200):]:
         steps = [s for s in b["steps"] if s["a"] in ("Arrive", "Range")]
@@ -43,6 +43,20 @@ def run(ctx):
         "abandonment after CacheSkippedSeqMaxWait is an explicit environment action and abandoned sequences are excluded from SkippedExact",
         "the response clause (LowSeq = stable in _changes) is bound through C01; here the exposed stable sequence itself is checked",
     ]
+
+
+def per_prefix(behs, rnd, k):
+    """TLC's simulator evaluates the export invariant on every candidate last step, so each simulated trace yields a
+    family of behaviours that differ in the last step only: keep at most k of each family."""
+    fam = {}
+    for b in behs:
+        fam.setdefault(json.dumps([b["mn"], b["steps"][:-1]], sort_keys=True), []).append(b)
+    res = []
+    for key in sorted(fam):
+        g = fam[key]
+        rnd.shuffle(g)
+        res += g[:k]
+    return res
 
 
 def replay_and_validate(ctx, behs, nseq):
